@@ -5,13 +5,19 @@
   range under the visible guard `ParentStable`: the known finding "mark step vs. parent-retyping
   replace", DESIGN.md), and for two markup steps on disjoint tokens.  Pairs involving
   replace-around steps: rebasing (`rebase_markup_not_dropped_around`) only; convergence is covered
-  by the correspondence run and the search.  "Each application succeeds" is a hypothesis throughout.
-  Helper lemmas: Proofs/Commute.lean, Proofs/CommuteMarkup.lean.
+  by the correspondence run and the search.  "Each application succeeds" is a hypothesis of the
+  convergence theorems; that the two rebased replace steps *do* apply is proved under the decidable guard
+  `commuteGuard` (`commute_succeeds_replace`: one step inside a node the other does not touch; false
+  without a guard, `commute_needs_guard`).
+  Helper lemmas: Proofs/Commute.lean, Proofs/CommuteMarkup.lean, Proofs/CommuteSuccess.lean,
+  Proofs/CommuteSuccessR.lean, Proofs/Lvl.lean.
 -/
 import PM.Step
 import Proofs.StepToks
 import Proofs.Commute
 import Proofs.CommuteMarkup
+import Proofs.CommuteSuccess
+import Proofs.CommuteSuccessR
 namespace PM.C17
 open PM
 
@@ -62,7 +68,7 @@ theorem commute_replace_toks (S : Schema) (d da db dab dba : Node) (f1 t1 f2 t2 
   have kb := apply_replace_fromReplace S d db f2 t2 s2 b2 hb
   obtain ⟨hda, h1, hl1, hwf1, _⟩ := fromReplace_toks S d da f1 t1 s1 ka
   obtain ⟨hdb, h2, hl2, hwf2, _⟩ := fromReplace_toks S d db f2 t2 s2 kb
-  obtain ⟨hlen1, hs1⟩ := Slice.toks_length_of_wf s1 hwf1
+  obtain ⟨hlen1, hs1⟩ := Slice.toks_length_of_wf_ex s1 hwf1
   obtain ⟨r1, r2⟩ := rebase_separated_after f1 t1 f2 t2 s1 s2 b1 b2 h1 h2 hsep hs1
   rw [r1] at hb'; rw [r2] at ha'
   simp only [Option.some.injEq] at hb' ha'
@@ -96,7 +102,7 @@ theorem commute_replace (S : Schema) (d da db dab dba : Node) (f1 t1 f2 t2 : Nat
   have kb := apply_replace_fromReplace S d db f2 t2 s2 b2 hb
   obtain ⟨_, h1, _, hwf1, _⟩ := fromReplace_toks S d da f1 t1 s1 ka
   obtain ⟨_, h2, _, _, _⟩ := fromReplace_toks S d db f2 t2 s2 kb
-  obtain ⟨_, hs1⟩ := Slice.toks_length_of_wf s1 hwf1
+  obtain ⟨_, hs1⟩ := Slice.toks_length_of_wf_ex s1 hwf1
   obtain ⟨r1, r2⟩ := rebase_separated_after f1 t1 f2 t2 s1 s2 b1 b2 h1 h2 hsep hs1
   rw [r1] at hb'; rw [r2] at ha'
   simp only [Option.some.injEq] at hb' ha'
@@ -327,7 +333,7 @@ theorem commute_replace_mark_partial (S : Schema) (d da db dab dba : Node) (f t 
   have hsp : (Step.addMark f2 t2 mk).posSpan = some (f2, t2) := rfl
   have kfa := apply_replace_fromReplace S d da f t sl b ha
   obtain ⟨hda, hft, htl, hwf, _⟩ := fromReplace_toks S d da f t sl kfa
-  obtain ⟨hlen, hs0⟩ := Slice.toks_length_of_wf sl hwf
+  obtain ⟨hlen, hs0⟩ := Slice.toks_length_of_wf_ex sl hwf
   have hmapped := (rebase_markup_not_dropped _ f2 t2 hsp hle f t sl b hft).2 hsep
   rw [hmapped] at hM'
   simp only [Step.mapPos, Option.some.injEq, Step.addMark.injEq, and_true] at hM'
@@ -416,5 +422,181 @@ theorem commute_markup_markup_docs (S : Schema) (d da db dab dba : Node) (A B A'
   obtain ⟨ty4, a4, m4, k4, kba, e, rfl⟩ := apply_markup_root S _ dba A' pa1 pa2 hpa hba
   cases e
   exact docs_eq_of_toks _ _ _ _ _ _ _ rfl rfl e3 hn1 hn2
+
+/-! ### both rebased orders apply — replace steps (helper lemmas: Proofs/CommuteSuccess.lean, Proofs/Lvl.lean)
+
+General statement (false, see `commute_needs_guard` below and the open finding C17-parent-retyped):
+
+    commute_succeeds_replace_full : t1 < f2 → S.apply (.replace f1 t1 s1 b1) d = .ok da →
+        S.apply (.replace f2 t2 s2 b2) d = .ok db → the two rebased steps apply to `da` resp. `db`
+
+Proved under the decidable guard `commuteGuard = insideLeft ∨ insideRight` (PM/CommuteGuard.lean): one of
+the two steps happens entirely inside an element node `n` — its `replace_outer` descends into `n` — and the
+other step's range lies behind `n` (resp. ends in front of `n`), in a node both steps reach.  Then the
+inner step rebuilds and re-validates nodes inside `n` only and keeps `n`'s markup, and the other step's
+replace never looks into `n`: the child list it validates has the same node types with either content of
+`n` (Proofs/CommuteSuccess.lean `replaceKids_prefix`, Proofs/CommuteSuccessR.lean `replaceKids_suffix`).
+No validity hypothesis and no schema guard are needed, and both orders yield the *same* document (no
+normal-form argument).  Not covered: both steps rebuild the same node (two insertions into one parent:
+`commute_needs_guard`), or one step's range crosses into the node the other one works in (open finding
+C17-parent-retyped). -/
+
+/-- **two replace steps with separated ranges, one of them inside a node the other one does not touch:
+    neither rebased step is dropped, both orders apply, and they give the same document** -/
+theorem commute_succeeds_replace (S : Schema) (d da db : Node) (f1 t1 f2 t2 : Nat) (s1 s2 : Slice)
+    (b1 b2 : Bool) (hn : fnorm d.kids = true) (hsn1 : fnorm s1.content = true)
+    (hsn2 : fnorm s2.content = true) (hsep : t1 < f2)
+    (ha : S.apply (.replace f1 t1 s1 b1) d = .ok da) (hb : S.apply (.replace f2 t2 s2 b2) d = .ok db)
+    (hg : commuteGuard d.kids f1 t1 s1 f2 t2 s2 = true) :
+    ∃ a' b' dab, (Step.replace f2 t2 s2 b2).map (Step.replace f1 t1 s1 b1).getMap = some b' ∧
+      (Step.replace f1 t1 s1 b1).map (Step.replace f2 t2 s2 b2).getMap = some a' ∧
+      S.apply b' da = .ok dab ∧ S.apply a' db = .ok dab := by
+  have ka := apply_replace_fromReplace S d da f1 t1 s1 b1 ha
+  have kb := apply_replace_fromReplace S d db f2 t2 s2 b2 hb
+  obtain ⟨ty, a, m, K, Ka, rfl, rfl, hr1⟩ := fromReplace_elem S d da f1 t1 s1 ka
+  obtain ⟨ty', a', m', K', Kb, he, rfl, hr2⟩ := fromReplace_elem S _ db f2 t2 s2 kb
+  cases he
+  simp only [Node.kids] at hn hg
+  obtain ⟨h1, _, hwf1⟩ := replaceKids_guards S ty K f1 t1 s1 Ka hr1
+  obtain ⟨h2, _, _⟩ := replaceKids_guards S ty K f2 t2 s2 Kb hr2
+  obtain ⟨hlen1, hs1⟩ := Slice.toks_length_of_wf_ex s1 hwf1
+  obtain ⟨r1, r2⟩ := rebase_separated_after f1 t1 f2 t2 s1 s2 b1 b2 h1 h2 hsep hs1
+  obtain ⟨Kab, c1, c2⟩ : ∃ Kab, replaceKids S ty Ka (f2 - (t1 - f1) + s1.toks.length)
+      (t2 - (t1 - f1) + s1.toks.length) s2 = .ok Kab ∧ replaceKids S ty Kb f1 t1 s1 = .ok Kab := by
+    simp only [commuteGuard, Bool.or_eq_true] at hg
+    rcases hg with hg | hg
+    · exact replaceKids_commute_left S ty K Ka Kb f1 t1 f2 t2 s1 s2 hn hsn1 hsep hr1 hr2 hg
+    · exact replaceKids_commute_right S ty K Ka Kb f1 t1 f2 t2 s1 s2 hn hsn1 hsn2 hsep hr1 hr2 hg
+  have n1 : ((f2 : Int) + s1.size - (t1 - f1)).toNat = f2 - (t1 - f1) + s1.toks.length := by omega
+  have n2 : ((t2 : Int) + s1.size - (t1 - f1)).toNat = t2 - (t1 - f1) + s1.toks.length := by omega
+  refine ⟨_, _, Node.elem ty a m Kab, r1, r2, ?_, ?_⟩
+  · rw [n1, n2]
+    simp [Schema.apply, Schema.fromReplace, Schema.replace, c1, Except.map]
+  · simp [Schema.apply, Schema.fromReplace, Schema.replace, c2, Except.map]
+
+/-! Non-vacuity of `commute_succeeds_replace`: in `doc(p("ab"), p("c"))` one user types `x` at 2 (inside the
+    first paragraph) and another types `y` at 5 (inside the second); the guard holds, the rebased steps are
+    "insert `y` at 6" and "insert `x` at 2", and both orders give `doc(p("axb"), p("yc"))`. -/
+section Example
+private def tinyS : Schema :=
+  { nodes := #[
+      { name := "doc", isText := false, isInline := false, isLeaf := false, isAtom := false,
+        inlineContent := false, isolating := false, defining := false, code := false,
+        dfa := #[⟨true, [(1, 0)]⟩], markSet := some [], attrs := [] },
+      { name := "para", isText := false, isInline := false, isLeaf := false, isAtom := false,
+        inlineContent := true, isolating := false, defining := false, code := false,
+        dfa := #[⟨true, [(2, 0)]⟩], markSet := none, attrs := [] },
+      { name := "text", isText := true, isInline := true, isLeaf := true, isAtom := true,
+        inlineContent := false, isolating := false, defining := false, code := false,
+        dfa := #[⟨true, []⟩], markSet := some [], attrs := [] }],
+    marks := #[], top := 0, textTy := 2 }
+
+private def par (s : List Nat) : Node := .elem 1 [] [] [.text s []]
+private def c0 : Node := .elem 0 [] [] [par [97, 98], par [99]]
+private def ca : Node := .elem 0 [] [] [par [97, 120, 98], par [99]]
+private def cb : Node := .elem 0 [] [] [par [97, 98], par [121, 99]]
+private def cab : Node := .elem 0 [] [] [par [97, 120, 98], par [121, 99]]
+
+private theorem stepA : tinyS.apply (.replace 2 2 ⟨[.text [120] []], 0, 0⟩ false) c0 = .ok ca := by
+  have hv : tinyS.validContent 1 [Node.text [97, 120, 98] []] = true := by decide
+  simp [Schema.apply, Schema.fromReplace, Schema.replace, c0, ca, par, replaceKids, inRange,
+    depthAt, Slice.wf, spineL, spineR, outer, atLevel, fcut, fcutLoop, cutText, splitOk, isHigh, isLow,
+    fappend, addNode, Except.map, hv]
+
+private theorem stepB : tinyS.apply (.replace 5 5 ⟨[.text [121] []], 0, 0⟩ false) c0 = .ok cb := by
+  have hv : tinyS.validContent 1 [Node.text [121, 99] []] = true := by decide
+  simp [Schema.apply, Schema.fromReplace, Schema.replace, c0, cb, par, replaceKids, inRange,
+    depthAt, Slice.wf, spineL, spineR, outer, atLevel, fcut, fappend, addNode, Except.map, hv]
+
+example : ∃ dab, tinyS.apply (.replace 6 6 ⟨[.text [121] []], 0, 0⟩ false) ca = .ok dab ∧
+    tinyS.apply (.replace 2 2 ⟨[.text [120] []], 0, 0⟩ false) cb = .ok dab := by
+  obtain ⟨a', b', dab, hb', ha', h1, h2⟩ := commute_succeeds_replace tinyS c0 ca cb 2 2 5 5
+    ⟨[.text [120] []], 0, 0⟩ ⟨[.text [121] []], 0, 0⟩ false false
+    (by simp [c0, par, Node.kids, fnorm, fnormKids, Node.norm, chainOk, adjOk])
+    (by simp [fnorm, fnormKids, Node.norm, chainOk]) (by simp [fnorm, fnormKids, Node.norm, chainOk])
+    (by omega) stepA stepB (by simp [c0, par, Node.kids, commuteGuard, insideLeft, depthAt])
+  have e1 : (Step.replace 5 5 ⟨[.text [121] []], 0, 0⟩ false).map
+      (Step.replace 2 2 ⟨[.text [120] []], 0, 0⟩ false).getMap
+      = some (.replace 6 6 ⟨[.text [121] []], 0, 0⟩ false) := by
+    have := (rebase_separated_after 2 2 5 5 ⟨[.text [120] []], 0, 0⟩ ⟨[.text [121] []], 0, 0⟩ false false
+      (by omega) (by omega) (by omega) (by simp [Slice.size])).1
+    simpa [Slice.size] using this
+  have e2 : (Step.replace 2 2 ⟨[.text [120] []], 0, 0⟩ false).map
+      (Step.replace 5 5 ⟨[.text [121] []], 0, 0⟩ false).getMap
+      = some (.replace 2 2 ⟨[.text [120] []], 0, 0⟩ false) :=
+    (rebase_separated_after 2 2 5 5 ⟨[.text [120] []], 0, 0⟩ ⟨[.text [121] []], 0, 0⟩ false false
+      (by omega) (by omega) (by omega) (by simp [Slice.size])).2
+  rw [e1] at hb'; rw [e2] at ha'
+  simp only [Option.some.injEq] at hb' ha'
+  subst hb'; subst ha'
+  exact ⟨dab, h1, h2⟩
+
+/-- the other half of the guard: "insert a paragraph at 0" (doc level) against "type `y` at 5" (inside the
+    second paragraph) — the right step is the one inside a node the left one does not touch -/
+example : insideLeft c0.kids 0 0 (depthAt c0.kids 0 - 0) 5 5 (depthAt c0.kids 5 - 0) = false ∧
+    commuteGuard c0.kids 0 0 ⟨[par [120]], 0, 0⟩ 5 5 ⟨[.text [121] []], 0, 0⟩ = true := by
+  simp [c0, par, Node.kids, commuteGuard, insideLeft, insideRight, depthAt]
+end Example
+
+/-! The guard cannot be dropped: a parent with a bounded count.  `doc "para{1,3}"`, `doc(p("a"), p("b"))`:
+    "insert `p("x")` at 0" and "insert `p("y")` at 6" both apply (three paragraphs), their ranges are
+    separated by all six tokens, both rebased steps are kept — and each fails on the other's result (four
+    paragraphs).  The real code behaves the same (checked with a schema built from this expression). -/
+section NeedsGuard
+private def cntS : Schema :=
+  { nodes := #[
+      { name := "doc", isText := false, isInline := false, isLeaf := false, isAtom := false,
+        inlineContent := false, isolating := false, defining := false, code := false,
+        dfa := #[⟨false, [(1, 1)]⟩, ⟨true, [(1, 2)]⟩, ⟨true, [(1, 3)]⟩, ⟨true, []⟩], markSet := some [],
+        attrs := [] },
+      { name := "para", isText := false, isInline := false, isLeaf := false, isAtom := false,
+        inlineContent := true, isolating := false, defining := false, code := false,
+        dfa := #[⟨true, [(2, 0)]⟩], markSet := none, attrs := [] },
+      { name := "text", isText := true, isInline := true, isLeaf := true, isAtom := true,
+        inlineContent := false, isolating := false, defining := false, code := false,
+        dfa := #[⟨true, []⟩], markSet := some [], attrs := [] }],
+    marks := #[], top := 0, textTy := 2 }
+
+private def q (c : Nat) : Node := .elem 1 [] [] [.text [c] []]
+private def n0 : Node := .elem 0 [] [] [q 97, q 98]
+private def na : Node := .elem 0 [] [] [q 120, q 97, q 98]
+private def nb : Node := .elem 0 [] [] [q 97, q 98, q 121]
+
+/-- both steps apply to the valid base document, neither rebased step is dropped, both orders fail —
+    and the guard is false -/
+theorem commute_needs_guard :
+    cntS.checkNode n0 = true ∧
+    cntS.apply (.replace 0 0 ⟨[q 120], 0, 0⟩ false) n0 = .ok na ∧
+    cntS.apply (.replace 6 6 ⟨[q 121], 0, 0⟩ false) n0 = .ok nb ∧
+    (Step.replace 6 6 ⟨[q 121], 0, 0⟩ false).map (Step.replace 0 0 ⟨[q 120], 0, 0⟩ false).getMap
+      = some (.replace 9 9 ⟨[q 121], 0, 0⟩ false) ∧
+    (Step.replace 0 0 ⟨[q 120], 0, 0⟩ false).map (Step.replace 6 6 ⟨[q 121], 0, 0⟩ false).getMap
+      = some (.replace 0 0 ⟨[q 120], 0, 0⟩ false) ∧
+    cntS.apply (.replace 9 9 ⟨[q 121], 0, 0⟩ false) na = .error .failed ∧
+    cntS.apply (.replace 0 0 ⟨[q 120], 0, 0⟩ false) nb = .error .failed ∧
+    commuteGuard n0.kids 0 0 ⟨[q 120], 0, 0⟩ 6 6 ⟨[q 121], 0, 0⟩ = false := by
+  have v3a : cntS.validContent 0 [q 120, q 97, q 98] = true := by decide
+  have v3b : cntS.validContent 0 [q 97, q 98, q 121] = true := by decide
+  have v4a : cntS.validContent 0 [q 120, q 97, q 98, q 121] = false := by decide
+  have r := rebase_separated_after 0 0 6 6 ⟨[q 120], 0, 0⟩ ⟨[q 121], 0, 0⟩ false false
+    (by omega) (by omega) (by omega) (by simp [Slice.size, q])
+  refine ⟨?_, ?_, ?_, ?_, r.2, ?_, ?_, ?_⟩
+  · simp [n0, q, Schema.checkNode, Schema.checkKids]; decide
+  · simp [Schema.apply, Schema.fromReplace, Schema.replace, n0, na, q, replaceKids, inRange,
+      Slice.wf, spineL, spineR, outer, atLevel, fcut, fappend, addNode, Except.map] at v3a ⊢
+    simp [v3a]
+  · simp [Schema.apply, Schema.fromReplace, Schema.replace, n0, nb, q, replaceKids, inRange,
+      depthAt, Slice.wf, spineL, spineR, outer, atLevel, fcut, fappend, addNode, Except.map] at v3b ⊢
+    simp [v3b]
+  · have := r.1
+    simpa [Slice.size, q] using this
+  · simp [Schema.apply, Schema.fromReplace, Schema.replace, na, q, replaceKids, inRange,
+      depthAt, Slice.wf, spineL, spineR, outer, atLevel, fcut, fappend, addNode, Except.map] at v4a ⊢
+    simp [v4a]
+  · simp [Schema.apply, Schema.fromReplace, Schema.replace, nb, q, replaceKids, inRange,
+      Slice.wf, spineL, spineR, outer, atLevel, fcut, fappend, addNode, Except.map] at v4a ⊢
+    simp [v4a]
+  · simp [n0, q, Node.kids, commuteGuard, insideLeft, insideRight]
+end NeedsGuard
 
 end PM.C17
